@@ -101,7 +101,6 @@ def get_headpos_by_rule(parent_label, children_label, rules,
                     parsed_label = trees.parse_label(child_label.lower())
                     if parsed_label.label.lower() == label:
                         return i
-                return 0
             else:
                 raise ValueError("unknown head rule direction")
     return 0
